@@ -27,7 +27,7 @@ OBLIGATIONS = [NS + t for t in [
     "mixture_w_frac_components", "contam_range", "repo_outlier_width", "repo_nuisance_supports", "nuisance_names",
 ]]
 # kernels whose translated source text (Gen/Kernels.lean) is proved equal to the model kernel this property's theorems are about
-GEN_KERNELS = ["cash_loss_factor", "pseudo_huber_loss_factor"]
+GEN_KERNELS = ["cash_loss_factor", "pseudo_huber_loss_factor", "losses"]
 MIRRORED_FILES = ["pysersic/loss.py"]
 ASSUMPTIONS = [
     "numpyro distributions' log_prob are modelled by the textbook formulas numpyro implements (Normal, StudentT, TruncatedNormal, MixtureSameFamily); validated per site by the correspondence",
